@@ -2,7 +2,7 @@
 # tools_seed.sh <PID> <seed dir with patch.diff + demo.py> : confirm a seeded change and run the check against it
 # uses a private evaluation worktree /root/work/evalwt-<pid> (VERIF_REPO), never /repo itself
 PID="$1"; SEED="$2"; lc=$(echo "$PID" | tr 'A-Z' 'a-z')
-WT=/root/work/evalwt-$lc
+WT=/root/work/evalwt-${WTSUF:-$lc}
 [ -d "$WT" ] || git -C /repo worktree add -q "$WT" HEAD
 git -C "$WT" checkout -q -- . ; git -C "$WT" clean -fdq
 git -C "$WT" checkout -q --detach "$(git -C /repo rev-parse HEAD)"
